@@ -714,29 +714,31 @@ pub(crate) fn is_parse_module_cache_up_to_date(
         // Determine if the cached dependency information is still valid
         let cache_up_to_date = build_config
             .and_then(|x| x.lsp_mode.as_ref())
-            .and_then(|lsp| lsp.file_versions.get(path.as_ref()))
+            .and_then(|lsp| lsp.file_versions.get(path.as_ref()).copied().flatten())
             .map_or_else(
                 || {
-                    // If LSP mode is not active or file version is unavailable, fall back to filesystem checks.
+                    // If LSP mode is not active or there is no LSP version for this file in this request
+                    // (the file is not the one that was edited, or the request comes from opening or saving
+                    // a document), fall back to filesystem checks. A missing version says nothing about the
+                    // file: an earlier edit of it may never have been compiled (its compilation was cancelled
+                    // or its request was replaced by a newer one).
                     let modified_time = std::fs::metadata(path.as_path())
                         .ok()
                         .and_then(|m| m.modified().ok());
                     // Check if modification time matches, or if not, compare file content hash
-                    entry.parsed.modified_time == modified_time || {
-                        let src = std::fs::read_to_string(path.as_path()).unwrap();
-                        let mut hasher = DefaultHasher::new();
-                        src.hash(&mut hasher);
-                        hasher.finish() == entry.common.hash
-                    }
+                    entry.parsed.modified_time == modified_time
+                        || std::fs::read_to_string(path.as_path()).is_ok_and(|src| {
+                            let mut hasher = DefaultHasher::new();
+                            src.hash(&mut hasher);
+                            hasher.finish() == entry.common.hash
+                        })
                 },
                 |version| {
-                    // Determine if the parse cache is up-to-date in LSP mode:
-                    // - If there's no LSP file version (version is None), consider the cache up-to-date.
-                    // - If there is an LSP file version:
-                    //   - If there's no cached version (entry.parsed.version is None), the cache is outdated.
-                    //   - If there's a cached version, compare them: cache is up-to-date if the LSP file version
-                    //     is not greater than the cached version.
-                    version.is_none_or(|v| entry.parsed.version.is_some_and(|ev| v <= ev))
+                    // There is an LSP file version:
+                    // - If there's no cached version (entry.parsed.version is None), the cache is outdated.
+                    // - If there's a cached version, compare them: cache is up-to-date if the LSP file version
+                    //   is not greater than the cached version.
+                    entry.parsed.version.is_some_and(|ev| version <= ev)
                 },
             );
 
